@@ -17,7 +17,10 @@ Quirks mirrored as they are in the code:
 * `Deprecated` / `Synthetic` are neither parsed nor skipped (the reader relies on `attribute_length == 0`);
 * `RuntimeVisible/InvisibleParameterAnnotations` are skipped whatever the interest flag says;
 * `BootstrapMethods` is always parsed; a second one, a second parsed `Record`, a second parsed `StackMapTable`/`StackMap` fail;
-* the reader never consults `ClassInterests.fields` / `.methods` (members are always visited);
+* `ClassInterests.fields = false`: inside `with_pos` every field is skipped (6 bytes unchecked + `skip_attributes`, the
+  same loop as the one before `visit_class`): its name / descriptor are not resolved, no attribute is parsed;
+  `ClassInterests.methods = false`: the methods are not read at all (not even `methods_count`) — whatever is wrong inside
+  them goes unnoticed; the cursor returns to the end of the class attributes either way (`with_pos`);
 * unknown attributes are read by their declared length; names known at another level are unknown here
   (`Deprecated` in a record component, `Signature` inside `Code`, ...);
 * inside `Code`, stack map frames, line numbers and local variables are delivered after all code attributes were read,
@@ -117,11 +120,16 @@ inductive CAttr where
 structure Field where
   h : Nat
   attrs : List Attr
+  /-- `name_index` / `descriptor_index` resolve to a valid `FieldName` / `FieldDescriptor` (`read_field` fails before
+  `visit_field` otherwise; the skipping loops never look at them) -/
+  ok : Bool := true
   deriving DecidableEq, Repr, Inhabited
 
 structure Method where
   h : Nat
   attrs : List MAttr
+  /-- `name_index` / `descriptor_index` resolve to a valid `MethodName` / `MethodDescriptor` -/
+  ok : Bool := true
   deriving DecidableEq, Repr, Inhabited
 
 structure ClassFrame where
@@ -147,7 +155,7 @@ structure MethodCfg where
 structure Cfg where
   /-- `visit_class`: `none` = `ControlFlow::Break` -/
   cls : Option Mask
-  /-- `ClassInterests.fields` / `.methods`: never consulted by the reader, honoured by `ClassFile::accept` -/
+  /-- `ClassInterests.fields` / `.methods`: honoured by the reader (52da0aa) and by `ClassFile::accept` -/
   fieldsI : Bool
   methodsI : Bool
   /-- `visit_field` for the i-th field: `none` = Break -/
@@ -166,6 +174,31 @@ def full : Cfg where
   field := fun _ => some allMask
   method := fun _ => some { mask := allMask, code := true, codeV := some allMask }
   recc := fun _ => some allMask
+
+/-! ## local variable entries -/
+
+/-- which halves the entries of one part of a method's local variable vector carry: the `descriptor` (entries of a
+`LocalVariableTable`), the `signature` (entries of a `LocalVariableTypeTable`) or both (the reader never produces such an
+entry, a tree built or merged by hand can hold it) -/
+inductive LvK where
+  | d | s | both
+  deriving DecidableEq, Repr, Inhabited
+
+/-- a run of entries of one kind; the payload is the fingerprint of the entries (their number) -/
+abbrev LvPart := LvK × Pay
+
+/-- what is left of an entry for a code visitor with interests `cm`: the halves of the tables it asks for -/
+def LvK.strip (cm : Mask) : LvK → Option LvK
+  | .d => if cm .lvt then some .d else none
+  | .s => if cm .lvtt then some .s else none
+  | .both => if cm .lvt then (if cm .lvtt then some .both else some .d) else (if cm .lvtt then some .s else none)
+
+/-- the entries (and halves of entries) of the tables a code visitor with interests `cm` asks for -/
+def lvProj (cm : Mask) (parts : List LvPart) : List LvPart :=
+  parts.filterMap (fun x => (x.1.strip cm).map (fun k => (k, x.2)))
+
+/-- no entry at all (`Vec::is_empty`): every part counts zero entries -/
+def lvNone (parts : List LvPart) : Bool := parts.all (fun x => x.2.sum == 0)
 
 /-! ## events -/
 
@@ -192,8 +225,8 @@ inductive Ev where
   | codeExc (i h : Nat)
   /-- `visit_line_numbers`: one part per parsed `LineNumberTable` -/
   | codeLines (i : Nat) (parts : List Pay)
-  /-- `visit_local_variables`: one part per parsed `LocalVariableTable` (`true`) / `LocalVariableTypeTable` (`false`) -/
-  | codeLocals (i : Nat) (parts : List (Bool × Pay))
+  /-- `visit_local_variables`: one part per parsed `LocalVariableTable` (`.d`) / `LocalVariableTypeTable` (`.s`) -/
+  | codeLocals (i : Nat) (parts : List LvPart)
   | codeEnd (i : Nat)
   | methodFlags (i : Nat) (dep syn : Bool)
   | methodEnd (i : Nat)
@@ -275,6 +308,9 @@ def readLeafs (avail : Nat) (act : K → Act) (m : Mask) (mk : Bool → K → Pa
 
 def attrLens (as : List Attr) : List Nat := as.map (·.len)
 
+/-- `FieldName::try_from(pool.get_utf8(..)?)?` and its siblings: the member header names a valid name and descriptor -/
+def named (ok : Bool) : R Unit := if ok then .ok () else .error .err
+
 /-! ### record components -/
 
 def readRecComp (avail : Nat) (cfg : Cfg) (r : Nat) (rc : RecComp) (pos : Nat) : R (Nat × List Ev) := do
@@ -329,6 +365,7 @@ def readClassAttrs (avail : Nat) (cfg : Cfg) (m : Mask) :
 
 def readField (avail : Nat) (cfg : Cfg) (i : Nat) (f : Field) (pos : Nat) : R (Nat × List Ev) := do
   let p ← need avail pos 6
+  named f.ok
   match cfg.field i with
   | none => do
     let p ← skipAttrs avail (attrLens f.attrs) p
@@ -353,7 +390,7 @@ structure KAcc where
   frames : Option Pay := none
   /-- one part per parsed table; the `Option<Vec<_>>` of the reader is `Some` iff there is a part -/
   lines : List Pay := []
-  locals : List (Bool × Pay) := []
+  locals : List LvPart := []
 
 /-- the interest flag `read_code` consults for an attribute name (`other` = `unknown_attributes`; `StackMap` is
 guarded by `stack_map_table` too) -/
@@ -377,8 +414,8 @@ def accAdd (i : Nat) (a : Attr) (acc : KAcc) : R KAcc :=
   | .stackMapTable | .stackMap =>
     if acc.frames.isSome then .error .err else .ok { acc with frames := some a.pay }
   | .lineNumberTable => .ok { acc with lines := acc.lines ++ [a.pay] }
-  | .lvt => .ok { acc with locals := acc.locals ++ [(true, a.pay)] }
-  | .lvtt => .ok { acc with locals := acc.locals ++ [(false, a.pay)] }
+  | .lvt => .ok { acc with locals := acc.locals ++ [(.d, a.pay)] }
+  | .lvtt => .ok { acc with locals := acc.locals ++ [(.s, a.pay)] }
   | .rvta | .rita => .ok { acc with evs := acc.evs ++ [Ev.kAttr i false a.k a.pay] }
   | _ => .ok { acc with evs := acc.evs ++ [Ev.kAttr i true a.k a.pay] }
 
@@ -436,6 +473,7 @@ def mattrLens (as : List MAttr) : List Nat := as.map mattrLen
 
 def readMethod (avail : Nat) (cfg : Cfg) (i : Nat) (mt : Method) (pos : Nat) : R (Nat × List Ev) := do
   let p ← need avail pos 6
+  named mt.ok
   match cfg.method i with
   | none => do
     let p ← skipAttrs avail (mattrLens mt.attrs) p
@@ -467,6 +505,23 @@ def cattrLen : CAttr → Nat
 
 def cattrLens (as : List CAttr) : List Nat := as.map cattrLen
 
+/-- the fields inside `with_pos` (position is after `fields_count`): visited when the class visitor reports
+`interests.fields`, otherwise each one skipped — `skip(2 + 2 + 2)` unchecked, then `skip_attributes` -/
+def readFieldsI (avail : Nat) (cfg : Cfg) (fs : List Field) (q : Nat) : R (Nat × List Ev) :=
+  if cfg.fieldsI then readFields avail cfg 0 fs q
+  else do
+    let q ← skipMembers avail (fs.map (fun f => attrLens f.attrs)) q
+    pure (q, [])
+
+/-- the methods inside `with_pos` (position is the end of the fields): `methods_count` and the methods are read only when
+the class visitor reports `interests.methods` -/
+def readMethodsI (avail : Nat) (cfg : Cfg) (ms : List Method) (q : Nat) : R (List Ev) :=
+  if cfg.methodsI then do
+    let q ← need avail q 2
+    let (_, mevs) ← readMethods avail cfg 0 ms q
+    pure mevs
+  else pure []
+
 /-- `class_reader::read` for one class file starting at position 0 with `avail` bytes available;
 answer: position of the cursor afterwards (= bytes consumed) and the events delivered -/
 def readWith (cfg : Cfg) (c : ClassFrame) (avail : Nat) : R (Nat × List Ev) := do
@@ -485,9 +540,8 @@ def readWith (cfg : Cfg) (c : ClassFrame) (avail : Nat) : R (Nat × List Ev) := 
     let (p, evs, d, sy) ← readClassAttrs avail cfg m {} c.attrs p
     -- `with_pos(fields_start, ..)`: members are read from the remembered position, the cursor returns to `p`
     let q ← need avail fieldsStart 2
-    let (q, fevs) ← readFields avail cfg 0 c.fields q
-    let q ← need avail q 2
-    let (_, mevs) ← readMethods avail cfg 0 c.methods q
+    let (q, fevs) ← readFieldsI avail cfg c.fields q
+    let mevs ← readMethodsI avail cfg c.methods q
     pure (p, Ev.classBegin c.h :: evs ++ [Ev.classFlags d sy] ++ fevs ++ mevs ++ [Ev.classEnd])
 
 /-! ## sizes and exact framing -/
@@ -541,7 +595,7 @@ def evBit (unk : Bool) (k : K) : K := if unk then .other else k
 
 def codeMaskOf (cfg : Cfg) (i : Nat) : Option Mask :=
   match cfg.cls, cfg.method i with
-  | some _, some mc => if mc.code then mc.codeV else none
+  | some _, some mc => if cfg.methodsI && mc.code then mc.codeV else none
   | _, _ => none
 
 /-- is the record component `r` visited with a visitor, and with which mask -/
@@ -552,7 +606,8 @@ def recMaskOf (cfg : Cfg) (r : Nat) : Option Mask :=
 
 def keepIf (b : Bool) (e : Ev) : Option Ev := if b then some e else none
 
-/-- what a visitor configured by `cfg` receives of an event of the full read -/
+/-- what a visitor configured by `cfg` receives of an event of the full read: nothing of the fields (methods, and their
+`Code`s) unless the class visitor reports `interests.fields` (`interests.methods`) -/
 def proj (cfg : Cfg) (e : Ev) : Option Ev :=
   match e with
   | .classBegin _ => some e
@@ -561,16 +616,19 @@ def proj (cfg : Cfg) (e : Ev) : Option Ev :=
   | .rAttr r unk k _ => match recMaskOf cfg r with | some rm => keepIf (rm (evBit unk k)) e | none => none
   | .recEnd r => keepIf (recMaskOf cfg r).isSome e
   | .classFlags _ _ => keepIf cfg.cls.isSome e
-  | .fieldBegin _ _ => keepIf cfg.cls.isSome e
+  | .fieldBegin _ _ => keepIf (cfg.cls.isSome && cfg.fieldsI) e
   | .fAttr i unk k _ =>
-    match cfg.cls, cfg.field i with | some _, some fm => keepIf (fm (evBit unk k)) e | _, _ => none
-  | .fieldFlags i _ _ | .fieldEnd i => keepIf (cfg.cls.isSome && (cfg.field i).isSome) e
-  | .methodBegin _ _ => keepIf cfg.cls.isSome e
+    match cfg.cls, cfg.field i with
+    | some _, some fm => keepIf (cfg.fieldsI && fm (evBit unk k)) e | _, _ => none
+  | .fieldFlags i _ _ | .fieldEnd i => keepIf (cfg.cls.isSome && cfg.fieldsI && (cfg.field i).isSome) e
+  | .methodBegin _ _ => keepIf (cfg.cls.isSome && cfg.methodsI) e
   | .mAttr i unk k _ =>
-    match cfg.cls, cfg.method i with | some _, some mc => keepIf (mc.mask (evBit unk k)) e | _, _ => none
-  | .methodFlags i _ _ | .methodEnd i => keepIf (cfg.cls.isSome && (cfg.method i).isSome) e
+    match cfg.cls, cfg.method i with
+    | some _, some mc => keepIf (cfg.methodsI && mc.mask (evBit unk k)) e | _, _ => none
+  | .methodFlags i _ _ | .methodEnd i => keepIf (cfg.cls.isSome && cfg.methodsI && (cfg.method i).isSome) e
   | .codeBegin i =>
-    match cfg.cls, cfg.method i with | some _, some mc => keepIf mc.code e | _, _ => none
+    match cfg.cls, cfg.method i with
+    | some _, some mc => keepIf (cfg.methodsI && mc.code) e | _, _ => none
   | .codeMaxs i _ | .codeExc i _ | .codeEnd i => keepIf (codeMaskOf cfg i).isSome e
   | .kAttr i unk k _ =>
     match codeMaskOf cfg i with | some cm => keepIf (cm (evBit unk k)) e | none => none
@@ -583,7 +641,7 @@ def proj (cfg : Cfg) (e : Ev) : Option Ev :=
   | .codeLocals i parts =>
     match codeMaskOf cfg i with
     | some cm =>
-      let parts' := parts.filter (fun x => if x.1 then cm .lvt else cm .lvtt)
+      let parts' := lvProj cm parts
       if parts'.isEmpty then none else some (.codeLocals i parts')
     | none => none
   | .classEnd => keepIf cfg.cls.isSome e
